@@ -37,40 +37,46 @@ def run(ctx):
 
 
 def modes(ctx, prog, T):
-    f = prog.fn('tree::Node::<NumericTypes>::insert_back_prioritized')
-    if f is None:
-        ctx.unrecognised('S13.1', 'insert_back_prioritized', 'missing', 'Node::insert_back_prioritized not found')
+    """Which operator kinds can be attached in which way. The decision function of insert_back_prioritized (C02 T7's: every path with
+    symbolic operators for self, its last child and the inserted node, and a symbolic child count of self) is evaluated for every
+    inserted kind over all states the procedure itself can be in (self kind x last-child kind x root flag x number of children up to
+    self's arity); a kind *reaches plain push / rotation* when some such state decides so. Paths that exist in the control-flow graph
+    but whose conditions contradict each other (a `None` arm after the node is known to be complete) therefore do not count."""
+    from rules.c02 import compile_insertion, InsertionError, InsertionUnknown
+    try:
+        f, decide, n_paths = compile_insertion(prog, T)
+    except InsertionError as e:
+        ctx.unrecognised('S13.1', 'insert_back_prioritized', e.kind, e.msg, span=e.span)
         return
     op = prog.adt(tables.OPERATOR)
-    node_adt = prog.adt('tree::Node')
     arity = T['max_argument_amount']
+    prec, unary, l2r, leaf = T['precedence'], T['is_unary'], T['is_left_to_right'], T['is_leaf']
+    cls = {}
+    for k in prec:
+        cls.setdefault((prec[k], unary[k], l2r[k], leaf[k], k == 'RootNode', arity[k]), []).append(k)
+    reps = sorted(v[0] for v in cls.values())
     plain_kinds, rot_kinds = set(), set()
-    n_paths = 0
-    for v in op['variants']:
-        fields = [SYM('f_' + fd['name']) for fd in v['fields']]
-        nodev = ADT(node_adt['path'], 0, 'Node', [ADT(op['path'], v['idx'], v['name'], fields), SYM('node_children')])
-        selfv = ADT(node_adt['path'], 0, 'Node', [SYM('self_operator'), SYM('self_children')])
-        it = Interp(prog, hook=opaque_hook(opaque={'insert_back_prioritized', 'has_enough_children', 'has_too_many_children'}), max_steps=300000)
-        try:
-            paths = it.paths(f, [selfv, nodev, SYM('is_root_node')])
-        except Budget:
-            ctx.unrecognised('S13.1', 'kind:' + v['name'], 'budget', 'insert_back_prioritized too complex for path enumeration', span=f.span)
-            continue
-        n_paths += len(paths)
-        for ret, eff in paths:
-            if not is_adt(ret, 'result::Result', 'Ok'):
-                continue
-            popped = False
-            for nm, a, sp in calls_of(eff):
-                if nm == 'pop' and a and a[0] == SYM('self_children'):
-                    popped = True
-                if nm == 'push' and len(a) == 2:
-                    if a[0] == SYM('self_children') and a[1] == nodev and not popped:
-                        plain_kinds.add((v['name'], sp))
-                    if popped and a[0] != SYM('self_children') and any(n_.split('::')[-1].split('#')[0] in ('pop', 'last', 'last_mut') and x_ and x_[0] == SYM('self_children') for n_, x_ in apps(a[1])):
-                        # the node popped from self.children is pushed into another node's children: rotation
-                        rot_kinds.add((v['name'], sp))
+    n_states = 0
+    try:
+        for members in cls.values():
+            nn = members[0]
+            outs = set()
+            for s_ in reps:
+                for l_ in reps:
+                    for R in (False, True):
+                        for sclen in range(0, (arity[s_] if arity[s_] is not None else 3) + 1):
+                            n_states += 1
+                            outs |= decide(dict(S=s_, L=l_, N=nn, R=R, sclen=sclen))
+            for k in members:
+                if 'push' in outs:
+                    plain_kinds.add((k, f.span))
+                if 'rotate' in outs:
+                    rot_kinds.add((k, f.span))
+    except InsertionUnknown as e:
+        ctx.unrecognised('S13.1', 'insert_back_prioritized', 'condition', 'a branch condition of the insertion procedure is not a function of the operator tables: %s' % e, span=f.span)
+        return
     ctx.counters['insert_paths_enumerated'] = n_paths
+    ctx.counters['insert_states_evaluated'] = n_states
     ctx.floor('S13.1', 'operator_kinds', len(op['variants']), 32)
     pk = sorted({k for k, _ in plain_kinds})
     rk = sorted({k for k, _ in rot_kinds})
